@@ -27,16 +27,27 @@ OBLIGATIONS = [
     "Grog.C01.build_eq_clean",
     "Grog.C01.hit_same_state",
     "Grog.C01.alias_skipped_witness",
+    "Grog.C01.dir_restore_exact_and_stale_witness",
+    "Grog.Compose.goodK_real",
+    "Grog.Compose.cacheSoundK_preserved",
+    "Grog.Compose.build_eq_cleanK",
+    "Grog.Compose.build_simK",
+    "Grog.Compose.hit_same_stateK",
+    "Grog.Compose.build_eq_clean_real",
+    "Grog.Compose.cacheSound_preserved_real",
 ]
+PROP_MODULES = ["GrogModel.Props.C01", "GrogModel.Props.ComposeBuild"]
 ASSUMPTIONS = [
-    "cache key injective on key-states (C09, repaired by f3e7529), output-hash computations injective (C09.outHash_inj)",
+    "strict layer (Grog.C01.*): cache key injective on all key-states; real-key layer (Grog.Compose.*_real): key = Hash.key H o render, "
+    "from C09.key_eq_iff under RealKey: H injective without '_' in digests, printed output hashes < 2^64 bytes, the command's result depends on "
+    "the command text, the set of (input path, content) pairs and the multiset of dependency output hashes only; sizes < 2^64, distinct fingerprint keys",
     "restore writes exactly the stored value (C06); parent-directory deletion of cached file outputs is left out of the generators until F-mkdir is repaired (agent stores)",
     "builds are atomic per-target steps in a topological order (C03/C11)",
     "generated commands are deterministic functions of declared inputs and dependency outputs (the property's premise)",
 ]
 
-FAMILIES_QUICK = [("edits", 12), ("alias", 8), ("shift", 6), ("tamper", 6), ("wipe", 4), ("taint", 3), ("disabled", 4), ("nocache", 3)]
-FAMILIES_THOROUGH = [("edits", 200), ("alias", 120), ("shift", 80), ("tamper", 120), ("taint", 40), ("disabled", 60), ("nocache", 40)]
+FAMILIES_QUICK = [("edits", 4), ("alias", 3), ("shift", 3), ("tamper", 4), ("dirs", 6), ("swap", 5), ("shared", 5), ("wipe", 3), ("taint", 2), ("disabled", 3), ("nocache", 2)]
+FAMILIES_THOROUGH = [(f, n * 18) for f, n in FAMILIES_QUICK]
 
 
 def signature_of(h):
@@ -52,11 +63,14 @@ def run(ctx):
             hists.append(H.gen_history(ctx.rng, fam, nsteps=None if quick else ctx.rng.randint(3, 7)))
     for _ in range(2 if quick else 20):
         hists.append(H.gen_swap(ctx.rng, nocache=True))
+        hists.append(H.gen_swap(ctx.rng, nocache=False))
         hists.append(H.gen_globout(ctx.rng))
     ctx.coverage["rule"] = ("layered DAGs of 2-6 targets (file/dir outputs, aliases incl. chains, globs with excludes, 1-2 targets per package), "
                             "histories of 2-5 edit/tamper/taint steps each followed by a build with a random selection; families: "
                             + ", ".join("%s x%d" % f for f in (FAMILIES_QUICK if quick else FAMILIES_THOROUGH)) +
-                            ", output-swap (no-cache dependency) and glob-matches-dependency-output (oracle only); "
+                            ", output-swap (cached and no-cache dependency) and glob-matches-dependency-output (oracle only); swap = splitter targets whose two "
+                            "outputs swap contents, shared = two targets of one package sharing one glob (one excluding the first match), dirs = directory "
+                            "outputs (files, sub-directory, symlink, one entry per input) growing/shrinking with the inputs and tampered in place; "
                             "non-trivial = distinct history with >=2 builds in which some build executed a command and some build had a cache hit")
     recs = H.run_both(ctx, hists, "c01")
     if recs is None:
@@ -71,7 +85,8 @@ def run(ctx):
     # --- oracle: real clean build -----------------------------------------------------------------
     n_oracle = n_fail = 0
     for r in recs:
-        which = "all" if (r["diffs"] or not quick) else "last"
+        deep = set(r["hist"].get("tags", [])) & {"dirs", "swap", "shared", "tamper"}
+        which = "all" if (r["diffs"] or not quick or deep) else "last"
         fails, n = H.clean_oracle(ctx, r["hist"], r["real"], "c01clean", which=which)
         n_oracle += n
         if fails:
